@@ -452,7 +452,48 @@ func (x *Exec) heapSym(s *State, key string, sort Sort) T {
 	if _, ok := s.heap0[key]; !ok {
 		s.heap0[key] = t
 	}
+	// a location first touched after a wildcard havoc no longer holds its entry value
+	if len(s.wildHavoc) > 0 && !x.keyStable(key) && x.wasHavocked(s, key) {
+		c := x.fresh(s, "H."+key, sort)
+		s.heap[key] = c
+		return c
+	}
 	return t
+}
+
+func (x *Exec) wasHavocked(s *State, key string) bool {
+	ei := 0
+	for _, p := range s.wildHavoc {
+		switch p {
+		case "*":
+			return true
+		case "?except":
+			f := s.exceptFns[ei]
+			ei++
+			if !f(key) {
+				return true
+			}
+		default:
+			if keyMatches([]string{p}, key) {
+				return true
+			}
+		}
+	}
+	return false
+}
+
+// keyStable: locations that no havoc ever changes.
+func (x *Exec) keyStable(key string) bool {
+	if strings.HasPrefix(key, "F:") && x.p.immutableField(key) {
+		return true
+	}
+	if strings.HasPrefix(key, "G:") && x.p.constGlobal(key) {
+		return true
+	}
+	if strings.HasPrefix(key, "C@") && x.p.immutableKey(stripSuf(key)) {
+		return true
+	}
+	return false
 }
 
 func (x *Exec) heapSet(s *State, key string, t T) {
@@ -486,6 +527,12 @@ func (x *Exec) needQuant(s *State) {}
 
 // havocAll forgets every heap location (unknown callee).
 func (x *Exec) havocAll(s *State, except func(key string) bool) {
+	if except == nil {
+		s.wildHavoc = append(s.wildHavoc, "*")
+	} else {
+		s.wildHavoc = append(s.wildHavoc, "?except") // resolved lazily: see havocExcept
+		s.exceptFns = append(s.exceptFns, except)
+	}
 	var keys []string
 	for k := range s.heap {
 		keys = append(keys, k)
@@ -730,7 +777,7 @@ func (x *Exec) strLit(s *State, v string) T {
 	t := T{n, SStr}
 	s.decls = append(s.decls, "(declare-const "+n+" Str) ; "+strings.ReplaceAll(fmt.Sprintf("%q", trunc(v, 60)), "\n", " "))
 	s.lits[v] = t
-	s.facts = append(s.facts, Eq(x.strLenRaw(t), x.ilit(int64(len(v)))))
+	s.facts = append(s.facts, Eq(x.strLenRaw(t), x.ilit(int64(len(v)))), Not(Eq(t, T{"str.empty", SStr})))
 	return t
 }
 
